@@ -247,6 +247,22 @@ def run(ctx):
   app = [c for c in walk_local(reg.node) if isinstance(c, ast.Call) and u(c.func) == '_FINALIZE_HOOKS.append']
   ctx.check(bool(app), 'C12.hooks', construct(reg), 'register_finalize_hook appends to the hook list finalize iterates',
             'register_finalize_hook no longer appends to _FINALIZE_HOOKS', reg.loc())
+  # every registration adds one hook: the append is reached on every path, and nobody replaces or removes an entry
+  g_r = prog.cfg(reg)
+  app_nodes = [n for n in g_r.live_nodes() if any(u(c.func) == '_FINALIZE_HOOKS.append' and len(c.args) == 1 and reg.params and u(c.args[0]) == reg.params[0]
+                                                 for c in calls_of_node(n))]
+  w_r = witness(g_r, g_r.entry.id, [g_r.exit.id], avoid=[n.id for n in app_nodes]) if app_nodes else [g_r.entry.id, g_r.exit.id]
+  ctx.check(w_r is None, 'C12.hooks', construct(reg), 'every call of register_finalize_hook appends the hook it was given',
+            'register_finalize_hook can return without appending the hook (a hook that looks like one already registered replaces it or is dropped): '
+            'finalize then does not run every registered hook, and two hooks updating the same parameter are no longer both seen',
+            reg.loc(), instance='always-appends', path=describe_path(g_r, w_r) if w_r and app_nodes else None)
+  from ..resolve import store_accesses as _sa
+  _, acc_h = _sa(prog, 'config', ['_FINALIZE_HOOKS'])
+  edits = [a for a in acc_h if a.kind in ('write', 'rebind') and a.func is not None and not (a.method == 'append' and a.func is reg)]
+  ctx.check(not edits, 'C12.hooks', 'gin/config.py::_FINALIZE_HOOKS', 'the hook list is only ever appended to, by register_finalize_hook',
+            'the hook list is also changed at %s (`%s`): registered hooks can be replaced or removed'
+            % ((edits[0].loc(), edits[0].method or edits[0].kind) if edits else ('', '')),
+            edits[0].loc() if edits else reg.loc(), sites=len(acc_h), instance='append-only')
   hooks = [f for f in ctx.ix.all_funcs(['config']) if 'register_finalize_hook' in f.decorator_names()]
   ctx.expect_at_least('built-in finalize hooks', len(hooks), 0)
   want = {
